@@ -28,7 +28,7 @@ checks = {
              note="Heap addresses are not behind a seam (address-ordered iteration shows only statistically across processes). Exception messages are not compared. Torn table files are a non-judged probe.",
              tech="deterministic simulation: seeded compilation histories in simulated processes x hash seeds x parser-table-cache states; history check that all observations of one key agree"),
  "C17": dict(text="Seeded exploration: each run is a history of writes and reads over a private simulated store: the real nslc.py as writer process (own PYTHONHASHSEED, legal short writes and 16 B..64 KiB buffers injected at the open() seam) or in-process compile+dump, and the real FilesystemModuleLoader in reader processes (another hash seed, short raw reads, cwd inside or outside the store, name with or without .nslir) or in-process; names are overwritten with other programs between reads. A reference model maps each file name to its last completed write; every load is compared - listing with function order, globals, imports, metadata signatures, VM results and final globals of every exported function on seeded type-correct inputs - with a fresh compilation of the model's entry, at both optimisation levels. Evidence for the seeds run, not proof.",
-             note="Programs: /verif corpus (the 51 programs of tests/test_vm.py, stdlib, import-using sources) plus generated ones; only accepted programs are judged. ENOSPC / killed writers are non-judged probes (C17 does not quantify over faults).",
+             note="Programs: /verif corpus (the 51 programs of tests/test_vm.py, stdlib, import-using sources) plus generated ones; only accepted programs are judged. ENOSPC / killed writers are non-judged probes (C17 does not quantify over faults). One known finding (C17-D5, known_findings.json): functions with ~200+ sequential branches cannot be pickled (RecursionError); its witness is re-executed every run and reported as KNOWN-FINDING.",
              tech="deterministic simulation: writer/reader processes over a simulated store with legal short reads/writes, hash seeds and overwrite histories vs. a last-write reference model"),
 }
 m = {
